@@ -32,7 +32,7 @@ def nielsen_stub(orig):
         if (int(n), int(p)) == (1, 1):
             # Li2, complex above the cut: Im = -pi ln x
             if bool(x > 1):
-                return real.C(real.li2_real(x), -real.PI_F * x.log())
+                return real.C(real.li2_real(x), -real.pi_q() * x.log())
             return real.li2_real(x)
         if isinstance(x, (Dual,)):
             raise real.NotEncodable("derivative of Nielsen polylog not modelled")
